@@ -11,6 +11,35 @@ def main(tier: str) -> int:
     slices = U.QUICK_SLICES if tier == "quick" else U.THOROUGH_SLICES
     res = campaign.run_slices(slices, timeout=1500 if tier == "thorough" else 400)
     states, trans, cov = slices_summary(run, res, "C01")
+    # state-graph comparison at statement granularity: every reachable idle state x every statement, on real Stream objects
+    from .. import writergraph as wg, writer as _w  # noqa: PLC0415
+
+    graph = {}
+    for name in (("flow2", "nameq", "dtq") if tier == "quick" else ("flow2", "nameq", "dtq", "pfx", "quads", "qt")):
+        c = slices[name] if name in slices else U.THOROUGH_SLICES[name]
+        idle, pools, gr = wg.model_idle_states(c)
+        real_idle, trans_ = wg.walk(c, pools)
+        judged_, gst = wg.judge_transitions(c, trans_)
+        mism = 0
+        for tr in trans_:
+            o = judged_.get(tr["id"])
+            if o is None:
+                mism += 1
+                if mism <= 2:
+                    run.model_drift(f"slice {name}: real transition {tr['st']} from a reachable state is not a transition of PyWriter")
+                continue
+            if o["bad"]:
+                env.machinery_failure(f"C01: PyWriter's own composite clause {o['bad']} fails on a transition re-executed from a real state ({name})")
+            if (wg.canon([_w.norm_row(x) for x in o["rows"]]) != wg.canon([_w.norm_row(x) for x in tr["rows"]]) or wg.canon(o["to"]) != wg.canon(tr["to"])):
+                mism += 1
+                if mism <= 2:
+                    run.model_drift(f"slice {name}: statement {tr['st']}: rows or successor state differ between PyWriter and the real Stream")
+        if idle != real_idle:
+            run.model_drift(f"slice {name}: real Streams reach {len(real_idle)} idle states, PyWriter {len(idle)}")
+        graph[name] = {"model_idle_states": len(idle), "real_idle_states": len(real_idle), "same_state_set": idle == real_idle,
+                       "real_transitions": len(trans_), "transitions_equal_to_model": len(trans_) - mism}
+        states += gst["states"]
+        trans += gst["transitions"]
     cases, stats = campaign.writer_campaign(tier, seed, parse_entries=("flat", "to_graph"))
     judged = 0
     samples = []
@@ -44,8 +73,9 @@ def main(tier: str) -> int:
         "states": states, "transitions": trans, "traces_validated_against_impl": judged,
         "samples": samples, "exhaustive": False,
         "slices": cov, "simulation": stats["sim"], "judge": stats["judge"],
-        "cases": len(cases),
-        "explanation": "exhaustive TLC closure of PyWriter o JellyReader on slice universes; simulated behaviours replayed "
+        "cases": len(cases), "state_graph_comparison": graph,
+        "explanation": "state-graph comparison: every reachable idle state x every statement of small slices walked on real Stream objects, the state sets compared with TLC's and "
+                       "every real transition re-executed by TLC on PyWriter (TraceWriter: same rows, same successor, Good); exhaustive TLC closure of PyWriter o JellyReader on slice universes; simulated behaviours replayed "
                        "op by op into real Streams (rows compared with the model) and through whole-sequence entry points; "
                        "bytes judged by TLC (TraceReader) and parsed back with parse_jelly_flat / parse_jelly_to_graph",
     })
